@@ -2,7 +2,7 @@ import MoqModel.Str
 /- REGENERATED from /repo by extract/ on every run – do not edit. -/
 namespace Moq.Generated
 
-def reservedNames : List Str := [("mock".toList), ("callInfo".toList), ("break".toList), ("default".toList), ("func".toList), ("interface".toList), ("select".toList), ("case".toList), ("defer".toList), ("go".toList), ("map".toList), ("struct".toList), ("chan".toList), ("else".toList), ("goto".toList), ("package".toList), ("switch".toList), ("const".toList), ("fallthrough".toList), ("if".toList), ("range".toList), ("type".toList), ("continue".toList), ("for".toList), ("import".toList), ("return".toList), ("var".toList), ("string".toList), ("bool".toList), ("byte".toList), ("rune".toList), ("uintptr".toList), ("int".toList), ("int8".toList), ("int16".toList), ("int32".toList), ("int64".toList), ("uint".toList), ("uint8".toList), ("uint16".toList), ("uint32".toList), ("uint64".toList), ("float32".toList), ("float64".toList), ("complex64".toList), ("complex128".toList)]
+def reservedNames : List Str := [("mock".toList), ("callInfo".toList), ("break".toList), ("default".toList), ("func".toList), ("interface".toList), ("select".toList), ("case".toList), ("defer".toList), ("go".toList), ("map".toList), ("struct".toList), ("chan".toList), ("else".toList), ("goto".toList), ("package".toList), ("switch".toList), ("const".toList), ("fallthrough".toList), ("if".toList), ("range".toList), ("type".toList), ("continue".toList), ("for".toList), ("import".toList), ("return".toList), ("var".toList), ("string".toList), ("bool".toList), ("byte".toList), ("rune".toList), ("uintptr".toList), ("int".toList), ("int8".toList), ("int16".toList), ("int32".toList), ("int64".toList), ("uint".toList), ("uint8".toList), ("uint16".toList), ("uint32".toList), ("uint64".toList), ("float32".toList), ("float64".toList), ("complex64".toList), ("complex128".toList), ("error".toList), ("any".toList), ("nil".toList), ("append".toList), ("panic".toList)]
 
 def initialisms : List Str := [("ACL".toList), ("API".toList), ("ASCII".toList), ("CPU".toList), ("CSS".toList), ("DNS".toList), ("EOF".toList), ("GUID".toList), ("HTML".toList), ("HTTP".toList), ("HTTPS".toList), ("ID".toList), ("IP".toList), ("JSON".toList), ("LHS".toList), ("QPS".toList), ("RAM".toList), ("RHS".toList), ("RPC".toList), ("SLA".toList), ("SMTP".toList), ("SQL".toList), ("SSH".toList), ("TCP".toList), ("TLS".toList), ("TTL".toList), ("UDP".toList), ("UI".toList), ("UID".toList), ("UUID".toList), ("URI".toList), ("URL".toList), ("UTF8".toList), ("VM".toList), ("XML".toList), ("XMPP".toList), ("XSRF".toList), ("XSS".toList)]
 
